@@ -528,4 +528,571 @@ theorem okClauses_filter [Zero α] [DecidableEq α] (t : Table α) (ok : TableOK
   · simp [filterAxis, maskTable_ttype]
   · exact wfb_of_WF _ (maskTable_WF t ax _ ok.wf)
 
+
+/-- clauses for filter followed by the emptiness filter on the other axis -/
+theorem okClauses_drop [Zero α] [DecidableEq α] (t : Table α) (ok : TableOK t) (req : List Id)
+    (ax : Axis) (v : Variant) (hd : v.drops = true) (hm : v.noMd = false) :
+    ∀ c ∈ okClauses t req ax v (dropEmptyOther (filterAxis t req ax) ax), c.2 = true := by
+  have hSida : (filterAxis t req ax).ids ax = keptIds t req ax := by
+    unfold filterAxis keptIds; rw [maskTable_ids_same, idMask, filterMask_map_pred]
+  have hSido : (filterAxis t req ax).ids ax.other = t.ids ax.other := maskTable_ids_other _ _ _
+  have hida : (dropEmptyOther (filterAxis t req ax) ax).ids ax = keptIds t req ax := by
+    unfold dropEmptyOther dropEmpty
+    rw [maskTable_ids_other', hSida]
+  have hido := dropEmpty_ids t ok.wf ok.obsNodup ok.sampNodup req ax
+  have hSnd : ((filterAxis t req ax).ids ax.other).Nodup := by rw [hSido]; exact ok.nodup ax.other
+  -- membership of a surviving other-axis ID in the mask-filtered list of the filtered table
+  have hmemo : ∀ o, o ∈ (dropEmptyOther (filterAxis t req ax) ax).ids ax.other →
+      o ∈ filterMask ((filterAxis t req ax).ids ax.other)
+        ((vecs (filterAxis t req ax) ax.other).map anyNZ) := by
+    intro o ho
+    unfold dropEmptyOther dropEmpty at ho
+    rw [maskTable_ids_same] at ho
+    exact ho
+  intro c hc
+  simp only [okClauses, hd, hm, Bool.false_eq_true, ↓reduceIte, List.mem_cons, List.not_mem_nil,
+    or_false] at hc
+  rcases hc with rfl | rfl | rfl | rfl | rfl | rfl | rfl
+  · simp [hida]
+  · simp only [beq_iff_eq]
+    unfold dropEmptyOther
+    rw [hido]; rfl
+  · simp only [hida, List.all_eq_true, Bool.and_eq_true, beq_iff_eq]
+    intro k hk o ho
+    have hk' : k ∈ filterMask (t.ids ax) (idMask (t.ids ax) req) := by
+      rw [idMask, filterMask_map_pred]; exact hk
+    have ho' := hmemo o ho
+    have e1 := cellA_maskTable_other (filterAxis t req ax) ax
+      ((vecs (filterAxis t req ax) ax.other).map anyNZ) k o hSnd ho'
+    have e2 := cellA_maskTable_same t ax (idMask (t.ids ax) req) k o (ok.nodup ax) hk'
+    have e : cellA (dropEmptyOther (filterAxis t req ax) ax) ax k o = cellA t ax k o := by
+      unfold dropEmptyOther dropEmpty
+      rw [e1]; unfold filterAxis; exact e2
+    rw [e]
+    have hoin : o ∈ t.ids ax.other := by rw [← hSido]; exact mem_filterMask ho'
+    exact ⟨cellA_isSome t ok.wf ax k o (mem_filterMask hk') hoin, rfl⟩
+  · simp only [mdClause, hida, List.all_eq_true, beq_iff_eq]
+    intro k hk
+    have hk' : k ∈ filterMask (t.ids ax) (idMask (t.ids ax) req) := by
+      rw [idMask, filterMask_map_pred]; exact hk
+    unfold dropEmptyOther dropEmpty
+    rw [mdOf_maskTable_other']
+    exact mdOf_maskTable_same t ax _ k (ok.nodup ax) hk'
+  · simp only [mdClause, List.all_eq_true, beq_iff_eq]
+    intro o ho
+    have ho' := hmemo o ho
+    unfold dropEmptyOther dropEmpty
+    rw [mdOf_maskTable_same (filterAxis t req ax) ax.other _ o hSnd ho']
+    exact mdOf_maskTable_other t ax _ o
+  · simp [dropEmptyOther, dropEmpty, filterAxis, maskTable_ttype]
+  · exact wfb_of_WF _ (maskTable_WF _ _ _ (maskTable_WF t ax _ ok.wf))
+
+/-- clauses for the metadata-free variant -/
+theorem okClauses_nomd [Zero α] [DecidableEq α] (t : Table α) (ok : TableOK t) (req : List Id)
+    (ax : Axis) (v : Variant) (hd : v.drops = false) (hm : v.noMd = true) :
+    ∀ c ∈ okClauses t req ax v (stripMd (filterAxis t req ax)), c.2 = true := by
+  have hida : (stripMd (filterAxis t req ax)).ids ax = keptIds t req ax := by
+    have : (stripMd (filterAxis t req ax)).ids ax = (filterAxis t req ax).ids ax := by cases ax <;> rfl
+    rw [this]; unfold filterAxis keptIds; rw [maskTable_ids_same, idMask, filterMask_map_pred]
+  have hido : (stripMd (filterAxis t req ax)).ids ax.other = t.ids ax.other := by
+    have : (stripMd (filterAxis t req ax)).ids ax.other = (filterAxis t req ax).ids ax.other := by
+      cases ax <;> rfl
+    rw [this]; exact maskTable_ids_other _ _ _
+  have hcell : ∀ k o, cellA (stripMd (filterAxis t req ax)) ax k o = cellA (filterAxis t req ax) ax k o := by
+    intro k o; cases ax <;> rfl
+  intro c hc
+  simp only [okClauses, hd, hm, Bool.false_eq_true, ↓reduceIte, List.mem_cons, List.not_mem_nil,
+    or_false] at hc
+  rcases hc with rfl | rfl | rfl | rfl | rfl | rfl | rfl
+  · simp [hida]
+  · simp [hido]
+  · simp only [hida, hido, List.all_eq_true, Bool.and_eq_true, beq_iff_eq]
+    intro k hk o ho
+    have hk' : k ∈ filterMask (t.ids ax) (idMask (t.ids ax) req) := by
+      rw [idMask, filterMask_map_pred]; exact hk
+    have e := cellA_maskTable_same t ax (idMask (t.ids ax) req) k o (ok.nodup ax) hk'
+    rw [hcell]
+    unfold filterAxis
+    rw [e]
+    exact ⟨cellA_isSome t ok.wf ax k o (mem_filterMask hk') ho, rfl⟩
+  · cases ax <;> rfl
+  · cases ax <;> rfl
+  · rfl
+  · have hwf := maskTable_WF t ax (idMask (t.ids ax) req) ok.wf
+    apply wfb_of_WF
+    obtain ⟨h1, h2, _, _⟩ := hwf
+    refine ⟨h1, h2, ?_, ?_⟩
+    · intro m hm'; simp [stripMd] at hm'
+    · intro m hm'; simp [stripMd] at hm'
+
+/-- **`holds` is true of load-all-then-filter** for every well-formed table with distinct IDs,
+every non-empty request of distinct present IDs, both axes, every variant. -/
+theorem spec_holds [Zero α] [DecidableEq α] (t : Table α) (ok : TableOK t) (req : List Id) (ax : Axis)
+    (v : Variant) (hsub : ∀ x ∈ req, x ∈ t.ids ax) :
+    holds t req ax v (.ok (subsetSpec t req ax v)) = true := by
+  have h0 : (!req.all fun i => (t.ids ax).contains i) = false := by
+    simp only [Bool.not_eq_false', List.all_eq_true]
+    intro x hx; exact List.contains_iff_mem.mpr (hsub x hx)
+  unfold holds verdict
+  rw [h0]
+  simp only [Bool.false_eq_true, ↓reduceIte]
+  · split
+    · rfl
+    · simp only [Option.isNone_iff_eq_none]
+      apply firstFailing_none
+      unfold subsetSpec
+      cases hm : v.noMd
+      · cases hd : v.drops
+        · simp only [Bool.false_eq_true, ↓reduceIte]
+          exact okClauses_filter t ok req ax v hd hm
+        · simp only [Bool.false_eq_true, ↓reduceIte]
+          exact okClauses_drop t ok req ax v hd hm
+      · have hd : v.drops = false := by cases v <;> simp_all [Variant.noMd, Variant.drops]
+        simp only [↓reduceIte]
+        exact okClauses_nomd t ok req ax v hd hm
+
+
+theorem holds_refused [Zero α] [DecidableEq α] (full : Table α) (req : List Id) (ax : Axis) (v : Variant)
+    (e : Err) (x : Id) (hx : x ∈ req) (hxs : x ∉ full.ids ax) :
+    holds full req ax v (.error e) = true := by
+  have h0 : (!req.all fun i => (full.ids ax).contains i) = true := by
+    simp only [Bool.not_eq_eq_eq_not, Bool.not_true, List.all_eq_false]
+    exact ⟨x, hx, fun h => hxs (List.contains_iff_mem.mp h)⟩
+  unfold holds verdict
+  rw [h0]
+  simp only [↓reduceIte]
+  split <;> rfl
+
+theorem holds_outside [Zero α] [DecidableEq α] (full : Table α) (req : List Id) (ax : Axis) (v : Variant)
+    (res : Except Err (Table α)) (hsub : ∀ x ∈ req, x ∈ full.ids ax)
+    (hout : req = [] ∨ ¬ req.Nodup) : holds full req ax v res = true := by
+  have h0 : (!req.all fun i => (full.ids ax).contains i) = false := by
+    simp only [Bool.not_eq_false', List.all_eq_true]
+    intro x hx; exact List.contains_iff_mem.mpr (hsub x hx)
+  have h1 : (req.isEmpty || !decide req.Nodup) = true := by
+    rcases hout with rfl | h
+    · rfl
+    · simp [h]
+  unfold holds verdict
+  rw [h0, h1]
+  rfl
+
+theorem fromFile_ids [Zero α] (f : H5 α) (ax a : Axis) : (fromFile f ax).ids a = (f.grp a).ids := by
+  cases a <;> rfl
+
+theorem fromFile_WF [Zero α] (f : H5 α) (ax : Axis) (h : H5.WF f ax) : (fromFile f ax).WF := by
+  have hmd : ∀ (md : Option (List Md)) (ids : List Id),
+      (∀ m, md = some m → m.length = ids.length) → ∀ m, orNone md = some m → m.length = ids.length := by
+    intro md ids hl m hm
+    cases md with
+    | none => cases hm
+    | some l =>
+      cases l with
+      | nil => cases hm
+      | cons e es => exact hl m hm
+  cases ax with
+  | obs =>
+    refine ⟨?_, ?_, hmd f.obs.md f.obs.ids h.omdLen, hmd f.samp.md f.samp.ids h.smdLen⟩
+    · simp [fromFile, mkTable, CS.toDense, csOf, dimOf, h.shapeObs]
+    · intro r hr
+      have := toDense_row_length (csOf f .obs) r hr
+      rw [this]; simp [fromFile, mkTable, csOf, dimOf, Axis.other, h.shapeSamp]
+  | samp =>
+    refine ⟨?_, ?_, hmd f.obs.md f.obs.ids h.omdLen, hmd f.samp.md f.samp.ids h.smdLen⟩
+    · simp [fromFile, mkTable, transposeGrid, csOf, dimOf, Axis.other, h.shapeObs]
+    · intro r hr
+      simp only [fromFile, mkTable, transposeGrid, List.mem_map, List.mem_range] at hr
+      obtain ⟨j, hj, rfl⟩ := hr
+      rw [colAt_length _ j (fun r' hr' => by rw [toDense_row_length _ r' hr']; exact hj)]
+      simp [CS.toDense, csOf, dimOf, fromFile, mkTable, h.shapeSamp]
+
+/-- the hypotheses under which the file theorems speak: well-formed, distinct IDs on both axes -/
+structure H5.OK (f : H5 α) (ax : Axis) : Prop where
+  wf : H5.WF f ax
+  obsNodup : f.obs.ids.Nodup
+  sampNodup : f.samp.ids.Nodup
+
+theorem fromFile_OK [Zero α] (f : H5 α) (ax : Axis) (h : H5.OK f ax) : TableOK (fromFile f ax) :=
+  ⟨fromFile_WF f ax h.wf, h.obsNodup, h.sampNodup⟩
+
+/-- **model_holds (HDF5, default path; also `subset-table` on HDF5)**: for EVERY request — known or
+unknown IDs, any order, repeated or not — the declarative predicate is true of what the model of
+`from_hdf5(ids=…)` returns, the full table being the model's own full read of the same file. -/
+theorem model_holds [Zero α] [DecidableEq α] (f : H5 α) (ax : Axis) (h : H5.OK f ax) (req : List Id)
+    (v : Variant) (hv : v = .h5 ∨ v = .cmdH5) :
+    holds (fromFile f ax) req ax v (h5Subset f req ax) = true := by
+  by_cases hsub : ∀ x ∈ req, x ∈ (f.grp ax).ids
+  · by_cases hout : req = [] ∨ ¬ req.Nodup
+    · exact holds_outside _ _ _ _ _ (by rw [fromFile_ids]; exact hsub) hout
+    · have hne : req ≠ [] := fun e => hout (Or.inl e)
+      have hnd : req.Nodup := Classical.not_not.mp (fun e => hout (Or.inr e))
+      rw [h5subset_eq f req ax h.wf hne hnd hsub]
+      have := spec_holds (fromFile f ax) (fromFile_OK f ax h) req ax v (by rw [fromFile_ids]; exact hsub)
+      rcases hv with rfl | rfl <;> simpa [subsetSpec, Variant.noMd, Variant.drops] using this
+  · have : ∃ x, x ∈ req ∧ x ∉ (f.grp ax).ids := by
+      apply Classical.byContradiction
+      intro hcon
+      apply hsub
+      intro x hx
+      apply Classical.byContradiction
+      intro hxs
+      exact hcon ⟨x, hx, hxs⟩
+    obtain ⟨x, hx, hxs⟩ := this
+    rw [h5subset_unknown_refused f req ax h.wf.nodup x hx hxs]
+    exact holds_refused _ _ _ _ _ x hx (by rw [fromFile_ids]; exact hxs)
+
+theorem model_holds_parseH5 [Zero α] [DecidableEq α] (f : H5 α) (ax : Axis) (h : H5.OK f ax)
+    (req : List Id) : holds (fromFile f ax) req ax .parseH5 (parseH5 f req ax) = true := by
+  by_cases hsub : ∀ x ∈ req, x ∈ (f.grp ax).ids
+  · by_cases hout : req = [] ∨ ¬ req.Nodup
+    · exact holds_outside _ _ _ _ _ (by rw [fromFile_ids]; exact hsub) hout
+    · have hne : req ≠ [] := fun e => hout (Or.inl e)
+      have hnd : req.Nodup := Classical.not_not.mp (fun e => hout (Or.inr e))
+      rw [parseH5_eq f req ax h.wf hne hnd hsub]
+      have := spec_holds (fromFile f ax) (fromFile_OK f ax h) req ax .parseH5
+        (by rw [fromFile_ids]; exact hsub)
+      simpa [subsetSpec, Variant.noMd, Variant.drops] using this
+  · have : ∃ x, x ∈ req ∧ x ∉ (f.grp ax).ids := by
+      apply Classical.byContradiction
+      intro hcon
+      apply hsub
+      intro x hx
+      apply Classical.byContradiction
+      intro hxs
+      exact hcon ⟨x, hx, hxs⟩
+    obtain ⟨x, hx, hxs⟩ := this
+    rw [parseH5_unknown_refused f req ax h.wf.nodup x hx hxs]
+    exact holds_refused _ _ _ _ _ x hx (by rw [fromFile_ids]; exact hxs)
+
+theorem model_holds_nomd [Zero α] [DecidableEq α] (f : H5 α) (ax : Axis) (h : H5.OK f ax)
+    (req : List Id) : holds (fromFile f ax) req ax .h5nomd (h5SubsetNoMd f req ax) = true := by
+  by_cases hsub : ∀ x ∈ req, x ∈ (f.grp ax).ids
+  · by_cases hne : req = []
+    · exact holds_outside _ _ _ _ _ (by rw [fromFile_ids]; exact hsub) (Or.inl hne)
+    · rw [h5nomd_eq f req ax h.wf hne hsub]
+      have := spec_holds (fromFile f ax) (fromFile_OK f ax h) req ax .h5nomd
+        (by rw [fromFile_ids]; exact hsub)
+      simpa [subsetSpec, Variant.noMd] using this
+  · have : ∃ x, x ∈ req ∧ x ∉ (f.grp ax).ids := by
+      apply Classical.byContradiction
+      intro hcon
+      apply hsub
+      intro x hx
+      apply Classical.byContradiction
+      intro hxs
+      exact hcon ⟨x, hx, hxs⟩
+    obtain ⟨x, hx, hxs⟩ := this
+    rw [h5nomd_unknown_refused f req ax h.wf.nodup x hx hxs]
+    exact holds_refused _ _ _ _ _ x hx (by rw [fromFile_ids]; exact hxs)
+
+/-- the document hypotheses: well-formed, distinct IDs on both axes -/
+structure Doc.OK (d : Doc α) : Prop where
+  wf : Doc.WF d
+  rowsNodup : (d.rows.map (·.id)).Nodup
+  colsNodup : (d.cols.map (·.id)).Nodup
+
+theorem castMd_length (recs : List Rec) : ∀ m, castMd recs = some m → m.length = recs.length := by
+  intro m hm
+  unfold castMd at hm
+  split at hm
+  · cases hm
+  · simp only [Option.some.injEq] at hm; subst hm; simp
+
+theorem docTable_OK [Zero α] [Add α] (d : Doc α) (h : Doc.OK d) : TableOK (docTable d) := by
+  refine ⟨⟨?_, ?_, ?_, ?_⟩, h.rowsNodup, h.colsNodup⟩
+  · simp [docTable, h.wf.shapeRows]
+  · intro r hr
+    simp only [docTable, List.mem_map, List.mem_range] at hr
+    obtain ⟨i, _, rfl⟩ := hr
+    simp [docTable, h.wf.shapeCols]
+  · intro m hm; simpa [docTable] using castMd_length d.rows m hm
+  · intro m hm; simpa [docTable] using castMd_length d.cols m hm
+
+theorem docTable_ids [Zero α] [Add α] (d : Doc α) (a : Axis) :
+    (docTable d).ids a = (d.recs a).map (·.id) := by cases a <;> rfl
+
+/-- **model_holds (`parse_table(ids=…)` on JSON)**: every request; unknown IDs are simply ignored
+by this reader, which the property allows. -/
+theorem model_holds_json [Zero α] [Add α] [DecidableEq α] (d : Doc α) (ax : Axis) (h : Doc.OK d)
+    (req : List Id) : holds (docTable d) req ax .jsonParse (jsonSubset d req ax) = true := by
+  rw [json_subset_eq d req ax h.wf]
+  by_cases hsub : ∀ x ∈ req, x ∈ (docTable d).ids ax
+  · have := spec_holds (docTable d) (docTable_OK d h) req ax .jsonParse hsub
+    simpa [subsetSpec, Variant.noMd, Variant.drops] using this
+  · have h0 : (!req.all fun i => ((docTable d).ids ax).contains i) = true := by
+      simp only [Bool.not_eq_eq_eq_not, Bool.not_true, List.all_eq_false]
+      apply Classical.byContradiction
+      intro hcon
+      apply hsub
+      intro x hx
+      apply Classical.byContradiction
+      intro hxs
+      exact hcon ⟨x, hx, fun hc => hxs (List.contains_iff_mem.mp hc)⟩
+    unfold holds verdict
+    rw [h0]
+    rfl
+
+/-- **model_holds (`subset-table` on JSON, record/triple level)** under the writer's metadata layout -/
+theorem model_holds_cmdjson [Zero α] [Add α] [DecidableEq α] (d : Doc α) (ax : Axis) (h : Doc.OK d)
+    (hu : MdUniform (d.recs ax)) (req : List Id) :
+    holds (docTable d) req ax .cmdJson (cmdJson d req ax) = true := by
+  by_cases hsub : ∀ x ∈ req, x ∈ (d.recs ax).map (·.id)
+  · by_cases hne : req = []
+    · exact holds_outside _ _ _ _ _ (by rw [docTable_ids]; exact hsub) (Or.inl hne)
+    · rw [cmd_json_eq d req ax h.wf hu hne hsub]
+      have := spec_holds (docTable d) (docTable_OK d h) req ax .cmdJson
+        (by rw [docTable_ids]; exact hsub)
+      simpa [subsetSpec, Variant.noMd, Variant.drops] using this
+  · have : ∃ x, x ∈ req ∧ x ∉ (d.recs ax).map (·.id) := by
+      apply Classical.byContradiction
+      intro hcon
+      apply hsub
+      intro x hx
+      apply Classical.byContradiction
+      intro hxs
+      exact hcon ⟨x, hx, hxs⟩
+    obtain ⟨x, hx, hxs⟩ := this
+    rw [cmd_json_unknown_refused d req ax x hx hxs]
+    exact holds_refused _ _ _ _ _ x hx (by rw [docTable_ids]; exact hxs)
+
+
+/-! ## The raw-text slicer at field level: every padding -/
+
+/-- `field` is `core` surrounded by characters `strip_f` removes (brackets, blanks, newlines, tabs),
+`core` itself neither beginning (`a`) nor ending (`z`) with such a character -/
+def Padded (core field : Text) : Prop :=
+  ∃ pre post a mid z rmid, field = pre ++ core ++ post ∧ (∀ c ∈ pre, stripSet.contains c = true) ∧
+    (∀ c ∈ post, stripSet.contains c = true) ∧ core = a :: mid ∧ core.reverse = z :: rmid ∧
+    stripSet.contains a = false ∧ stripSet.contains z = false
+
+theorem dropWhile_pad (p : Char → Bool) (pre : Text) (a : Char) (rest : Text)
+    (hpre : ∀ c ∈ pre, p c = true) (ha : p a = false) :
+    (pre ++ a :: rest).dropWhile p = a :: rest := by
+  induction pre with
+  | nil => simp [ha]
+  | cons c cs ih =>
+    have hc := hpre c List.mem_cons_self
+    simp only [List.cons_append, List.dropWhile_cons, hc, ↓reduceIte]
+    exact ih (fun x hx => hpre x (List.mem_cons_of_mem _ hx))
+
+theorem stripF_padded (core field : Text) (h : Padded core field) : stripF field = core := by
+  obtain ⟨pre, post, a, mid, z, rmid, rfl, hpre, hpost, hcore, hrev, ha, hz⟩ := h
+  unfold stripF
+  have h1 : (pre ++ core ++ post).dropWhile (fun c => stripSet.contains c) = core ++ post := by
+    rw [hcore, List.append_assoc, List.cons_append]
+    exact dropWhile_pad _ pre a (mid ++ post) hpre ha
+  rw [h1, List.reverse_append, hrev]
+  rw [dropWhile_pad (fun c => stripSet.contains c) post.reverse z rmid
+    (fun c hc => hpost c (List.mem_reverse.mp hc)) hz]
+  rw [← hrev, List.reverse_reverse]
+
+theorem contains_map_inj (render : Nat → Text) (hinj : ∀ a b, render a = render b → a = b)
+    (sk : List Nat) (r : Nat) : (sk.map render).contains (render r) = sk.contains r := by
+  induction sk with
+  | nil => rfl
+  | cons x xs ih =>
+    have hx : (render r == render x) = (r == x) := by
+      by_cases h : r = x
+      · subst h; simp
+      · have : ¬ render r = render x := fun e => h (hinj _ _ e)
+        have h1 : (render r == render x) = false := beq_eq_false_iff_ne.mpr this
+        have h2 : (r == x) = false := beq_eq_false_iff_ne.mpr h
+        rw [h1, h2]
+    simp only [List.map_cons, List.contains_cons, ih, hx]
+
+theorem idxOf_map_inj (render : Nat → Text) (hinj : ∀ a b, render a = render b → a = b)
+    (sk : List Nat) (r : Nat) : (sk.map render).idxOf (render r) = sk.idxOf r := by
+  induction sk with
+  | nil => rfl
+  | cons x xs ih =>
+    have hx : (render x == render r) = (x == r) := by
+      by_cases h : x = r
+      · subst h; simp
+      · have : ¬ render x = render r := fun e => h (hinj _ _ e)
+        have h1 : (render x == render r) = false := beq_eq_false_iff_ne.mpr this
+        have h2 : (x == r) = false := beq_eq_false_iff_ne.mpr h
+        rw [h1, h2]
+    simp only [List.map_cons, List.idxOf_cons, ih, hx]
+
+/-- a record of the text (three padded fields) stands for the triple `(r, c, value text)` -/
+def RecOf (render : Nat → Text) (t : Nat × Nat × Text) (f : Text × Text × Text) : Prop :=
+  Padded (render t.1) f.1 ∧ Padded (render t.2.1) f.2.1 ∧ Padded t.2.2 f.2.2
+
+inductive RecsOf (render : Nat → Text) : List (Nat × Nat × Text) → List (Text × Text × Text) → Prop
+  | nil : RecsOf render [] []
+  | cons {t f ts fs} : RecOf render t f → RecsOf render ts fs → RecsOf render (t :: ts) (f :: fs)
+
+/-- **Field-level slicer, EVERY padding** (`_partial`: the two `split`s and `direct_parse_key` that
+produce the fields from the raw text are not covered by a theorem — they are run against the real
+functions character by character).  `render` is Python's `str(int)`: any injective rendering.
+Whatever brackets, blanks, newlines or tabs surround the three fields of each record, the slicer
+keeps exactly the records whose row (column) index is kept and renames that index to its rank. -/
+theorem slice_fields_eq_partial (render : Nat → Text) (hinj : ∀ a b, render a = render b → a = b)
+    (triples : List (Nat × Nat × Text)) (recs : List (Text × Text × Text))
+    (h : RecsOf render triples recs) (sk : List Nat) :
+    sliceFields render recs sk .obs =
+        (triples.filter (fun t => sk.contains t.1)).map
+          (fun t => (render (sk.idxOf t.1), render t.2.1, t.2.2)) ∧
+    sliceFields render recs sk .samp =
+        (triples.filter (fun t => sk.contains t.2.1)).map
+          (fun t => (render t.1, render (sk.idxOf t.2.1), t.2.2)) := by
+  induction h with
+  | nil => exact ⟨rfl, rfl⟩
+  | cons hrec _ ih =>
+    obtain ⟨h1, h2, h3⟩ := hrec
+    have e1 := stripF_padded _ _ h1
+    have e2 := stripF_padded _ _ h2
+    have e3 := stripF_padded _ _ h3
+    obtain ⟨ih1, ih2⟩ := ih
+    simp only [sliceFields] at ih1 ih2 ⊢
+    constructor
+    · simp only [List.filter_cons, e1, contains_map_inj render hinj]
+      split
+      · simp only [List.map_cons, e1, e2, e3, idxOf_map_inj render hinj, ih1]
+      · exact ih1
+    · simp only [List.filter_cons, e2, contains_map_inj render hinj]
+      split
+      · simp only [List.map_cons, e1, e2, e3, idxOf_map_inj render hinj, ih2]
+      · exact ih2
+
+
+/-! ## Witnesses: where the raw-text scanner leaves the property's domain (recorded findings) -/
+
+def okIs (r : Except Err Text) (expected : Text) : Bool :=
+  match r with
+  | .ok t => t == expected
+  | .error _ => false
+
+def isIndexError (r : Except Err Text) : Bool :=
+  match r with
+  | .error .index => true
+  | _ => false
+
+def witBracketText : Text := ['"', 'r', 'o', 'w', 's', '"', ':', ' ', '[', '{', '"', 'i', 'd', '"', ':', ' ', '"', 'O', ']', '2', '"', '}', ']', ',', '"', 'c', 'o', 'l', 'u', 'm', 'n', 's', '"', ':', ' ', '[', '{', '"', 'i', 'd', '"', ':', ' ', '"', 'S', '1', '"', '}', ']', '}']
+def witBracketWant : Text := ['"', 'r', 'o', 'w', 's', '"', ':', ' ', '[', '{', '"', 'i', 'd', '"', ':', ' ', '"', 'O', ']', '2', '"', '}', ']']
+def witQuoteText : Text := ['"', 'r', 'o', 'w', 's', '"', ':', ' ', '[', '{', '"', 'i', 'd', '"', ':', ' ', '"', 'O', '\\', '"', '2', '"', '}', ']', ',', '"', 'c', 'o', 'l', 'u', 'm', 'n', 's', '"', ':', ' ', '[', '{', '"', 'i', 'd', '"', ':', ' ', '"', 'S', '1', '"', '}', ']', '}']
+def witQuoteWant : Text := ['"', 'r', 'o', 'w', 's', '"', ':', ' ', '[', '{', '"', 'i', 'd', '"', ':', ' ', '"', 'O', '\\', '"', '2', '"', '}', ']']
+def witHeaderText : Text := ['"', 'g', 'e', 'n', 'e', 'r', 'a', 't', 'e', 'd', '_', 'b', 'y', '"', ':', ' ', '"', 'a', ',', ' ', 'b', '"', ',', '"', 'd', 'a', 't', 'e', '"', ':', ' ', '"', 'd', '"', '}']
+def witHeaderGot : Text := ['"', 'g', 'e', 'n', 'e', 'r', 'a', 't', 'e', 'd', '_', 'b', 'y', '"', ':', ' ', '"', 'a']
+def witMdKeyText : Text := ['"', 'r', 'o', 'w', 's', '"', ':', ' ', '[', '{', '"', 'i', 'd', '"', ':', ' ', '"', 'O', '1', '"', ',', ' ', '"', 'm', 'e', 't', 'a', 'd', 'a', 't', 'a', '"', ':', ' ', '{', '"', 'c', 'o', 'l', 'u', 'm', 'n', 's', '"', ':', ' ', '"', 'a', '"', '}', '}', ']', ',', '"', 'c', 'o', 'l', 'u', 'm', 'n', 's', '"', ':', ' ', '[', '{', '"', 'i', 'd', '"', ':', ' ', '"', 'S', '1', '"', ',', ' ', '"', 'm', 'e', 't', 'a', 'd', 'a', 't', 'a', '"', ':', ' ', 'n', 'u', 'l', 'l', '}', ']', '}']
+def witMdKeyGot : Text := ['"', 'c', 'o', 'l', 'u', 'm', 'n', 's', '"', ':', ' ', '"', 'a', '"']
+def goodText : Text := ['{', '"', 'i', 'd', '"', ':', ' ', '"', 'N', 'o', 'n', 'e', '"', ',', '"', 't', 'y', 'p', 'e', '"', ':', ' ', 'n', 'u', 'l', 'l', ',', '"', 's', 'h', 'a', 'p', 'e', '"', ':', ' ', '[', '2', ',', ' ', '3', ']', ',', '"', 'd', 'a', 't', 'a', '"', ':', ' ', '[', '[', '0', ',', '0', ',', '1', '.', '0', ']', ',', '[', '0', ',', '1', ',', '2', '.', '0', ']', ',', '[', '1', ',', '1', ',', '3', '.', '0', ']', ',', '[', '1', ',', '2', ',', '4', '.', '0', ']', ']', ',', '"', 'r', 'o', 'w', 's', '"', ':', ' ', '[', '{', '"', 'i', 'd', '"', ':', ' ', '"', 'O', '1', '"', '}', ']', '}']
+
+/-- F-C14-1: `direct_parse_key` is not string-aware — with the row ID `O]2` the bracket inside the
+string closes the array early and the scan runs on past the value into `columns`;
+with the row ID `O"2` the escaped quote toggles the string state. Neither returns the `rows` value. -/
+theorem parse_key_bracket_in_string_witness :
+    okIs (directParseKey witBracketText ['r', 'o', 'w', 's']) witBracketWant = false ∧
+    okIs (directParseKey witQuoteText ['r', 'o', 'w', 's']) witQuoteWant = false := by
+  constructor <;> decide
+
+/-- F-C14-3: a header string is copied by the "number" branch (scan until `,` `{` `}`):
+`"generated_by": "a, b"` is cut at the comma inside the string. -/
+theorem parse_key_header_comma_witness :
+    okIs (directParseKey witHeaderText ['g','e','n','e','r','a','t','e','d','_','b','y']) witHeaderGot = true := by
+  decide
+
+/-- F-C14-2: the search for `"columns":` finds an observation-metadata category of that name
+inside `rows` before the top-level key. -/
+theorem parse_key_mdkey_columns_witness :
+    okIs (directParseKey witMdKeyText ['c','o','l','u','m','n','s']) witMdKeyGot = true := by
+  decide
+
+/-- on text without such strings the scanner returns the values (a character-level example) -/
+example : okIs (directParseKey goodText ['s','h','a','p','e']) ['"', 's', 'h', 'a', 'p', 'e', '"', ':', ' ', '[', '2', ',', ' ', '3', ']'] = true := by decide
+example : okIs (directParseKey goodText ['t','y','p','e']) ['"', 't', 'y', 'p', 'e', '"', ':', ' ', 'n', 'u', 'l', 'l', ',', '"', 's', 'h', 'a', 'p', 'e', '"', ':', ' ', '[', '2'] = true := by decide
+example : okIs (directParseKey goodText ['a','b','s','e','n','t']) [] = true := by decide
+
+
+/-! ## Non-vacuity: the hypotheses are met by concrete non-trivial inputs -/
+
+deriving instance DecidableEq for Except
+
+/-- a 2×3 file: O1 = [1,2,0], O2 = [0,3,4]; observation metadata; both matrix groups -/
+def exF : H5 Int :=
+  { obs := { ids := ["O1", "O2"], md := some [[("k", "\"a\"")], [("k", "\"b\"")]],
+             indptr := [0, 2, 4], indices := [0, 1, 1, 2], data := [1, 2, 3, 4] },
+    samp := { ids := ["S1", "S2", "S3"], md := none,
+              indptr := [0, 1, 3, 4], indices := [0, 0, 1, 1], data := [1, 2, 3, 4] },
+    shape := (2, 3), ttype := some "OTU table" }
+
+theorem exF_ok_samp : H5.OK exF .samp :=
+  ⟨⟨rfl, rfl, by constructor <;> decide, by decide,
+    fun m h => by cases h; rfl, fun m h => by cases h⟩, by decide, by decide⟩
+
+theorem exF_ok_obs : H5.OK exF .obs :=
+  ⟨⟨rfl, rfl, by constructor <;> decide, by decide,
+    fun m h => by cases h; rfl, fun m h => by cases h⟩, by decide, by decide⟩
+
+/-- requested in reverse order: file order comes back; nothing becomes empty -/
+example : h5Subset exF ["S3", "S1"] .samp =
+    .ok { obs := ["O1", "O2"], samp := ["S1", "S3"], rows := [[1, 0], [0, 4]],
+          omd := some [[("k", "\"a\"")], [("k", "\"b\"")]], smd := none, ttype := some "OTU table" } := by
+  decide
+
+/-- keeping S1 empties O2, which the default path drops and the metadata-free variant keeps -/
+example : h5Subset exF ["S1"] .samp =
+    .ok { obs := ["O1"], samp := ["S1"], rows := [[1]],
+          omd := some [[("k", "\"a\"")]], smd := none, ttype := some "OTU table" } := by decide
+
+example : h5SubsetNoMd exF ["S1"] .samp =
+    .ok { obs := ["O1", "O2"], samp := ["S1"], rows := [[1], [0]], omd := none, smd := none,
+          ttype := none } := by decide
+
+example : h5Subset exF ["O2"] .obs =
+    .ok { obs := ["O2"], samp := ["S2", "S3"], rows := [[3, 4]],
+          omd := some [[("k", "\"b\"")]], smd := none, ttype := some "OTU table" } := by decide
+
+example : h5Subset exF ["S1", "nope"] .samp = .error .value := by decide
+example : h5Subset exF ["S1", "S1"] .samp = .error .value := by decide
+example : h5SubsetNoMd exF ["S1", "nope"] .samp = .error .value := by decide
+
+/-- the two matrix groups of the example describe the same table -/
+example : fromFile exF .samp = fromFile exF .obs := by decide
+
+/-- the theorems apply to the example -/
+example : holds (fromFile exF .samp) ["S3", "S1"] .samp .h5 (h5Subset exF ["S3", "S1"] .samp) = true :=
+  model_holds exF .samp exF_ok_samp _ .h5 (Or.inl rfl)
+
+/-- `holds` is not trivially true: it rejects the unfiltered table, a result in request order, and
+a result whose emptied observation was not dropped -/
+example : holds (fromFile exF .samp) ["S3", "S1"] .samp .h5 (.ok (fromFile exF .samp)) = false := by decide
+example : holds (fromFile exF .samp) ["S3", "S1"] .samp .h5
+    (.ok { obs := ["O1", "O2"], samp := ["S3", "S1"], rows := [[0, 1], [4, 0]],
+           omd := some [[("k", "\"a\"")], [("k", "\"b\"")]], smd := none, ttype := some "OTU table" }) = false := by
+  decide
+example : holds (fromFile exF .samp) ["S1"] .samp .h5
+    (.ok { obs := ["O1", "O2"], samp := ["S1"], rows := [[1], [0]],
+           omd := some [[("k", "\"a\"")], [("k", "\"b\"")]], smd := none, ttype := some "OTU table" }) = false := by
+  decide
+example : holds (fromFile exF .samp) ["S1", "nope"] .samp .h5 (.ok (fromFile exF .samp)) = false := by decide
+
+/-- the same table as a JSON document -/
+def exD : Doc Int :=
+  { rows := [⟨"O1", some [("k", "\"a\"")]⟩, ⟨"O2", some [("k", "\"b\"")]⟩],
+    cols := [⟨"S1", none⟩, ⟨"S2", none⟩, ⟨"S3", none⟩], shape := (2, 3),
+    data := [⟨0, 0, 1⟩, ⟨0, 1, 2⟩, ⟨1, 1, 3⟩, ⟨1, 2, 4⟩], ttype := some "OTU table" }
+
+theorem exD_ok : Doc.OK exD := ⟨⟨rfl, rfl, by decide⟩, by decide, by decide⟩
+
+example : MdUniform (exD.recs .samp) := Or.inl (by decide)
+example : MdUniform (exD.recs .obs) := Or.inr (by decide)
+
+example : cmdJson exD ["S3", "S1"] .samp =
+    .ok { obs := ["O1", "O2"], samp := ["S1", "S3"], rows := [[1, 0], [0, 4]],
+          omd := some [[("k", "\"a\"")], [("k", "\"b\"")]], smd := none, ttype := some "OTU table" } := by
+  decide
+
+/-- the command keeps the emptied observation (documented), `parse_table(ids=…)` drops it -/
+example : cmdJson exD ["S1"] .samp =
+    .ok { obs := ["O1", "O2"], samp := ["S1"], rows := [[1], [0]],
+          omd := some [[("k", "\"a\"")], [("k", "\"b\"")]], smd := none, ttype := some "OTU table" } := by
+  decide
+
+example : jsonSubset exD ["S1"] .samp =
+    .ok { obs := ["O1"], samp := ["S1"], rows := [[1]],
+          omd := some [[("k", "\"a\"")]], smd := none, ttype := some "OTU table" } := by decide
+
+example : cmdJson exD ["S1", "nope"] .samp = .error .key := by decide
+
 end Biom.C14
